@@ -107,3 +107,82 @@ Proof.
       assert (Hj' : nth_region (regions m) (N.of_nat j) = Some r') by (unfold nth_region; now rewrite Nnat.Nat2N.id).
       specialize (Hs _ _ Hj'). unfold inb in Hb'. lia.
 Qed.
+
+(** ** disk sets *)
+
+Lemma disk1_index_spec nums : forall i,
+  match disk1_index nums i with
+  | Some k => i <= k /\ nth_error nums (N.to_nat (k - i)) = Some 1 /\
+              forall j, (j < N.to_nat (k - i))%nat -> nth_error nums j <> Some 1
+  | None => ~ In 1 nums
+  end.
+Proof.
+  induction nums as [|d t IH]; intros i; cbn [disk1_index]; [tauto|].
+  destruct (N.eqb_spec d 1) as [->|Hne].
+  - split; [lia|]. replace (i - i) with 0 by lia. cbn. split; [reflexivity|]. intros j Hj. lia.
+  - specialize (IH (i + 1)). destruct (disk1_index t (i + 1)) as [k|].
+    + destruct IH as (H1 & H2 & H3). split; [lia|].
+      replace (N.to_nat (k - i)) with (S (N.to_nat (k - (i + 1)))) by lia. cbn [nth_error].
+      split; [exact H2|]. intros j Hj. destruct j as [|j]; cbn [nth_error]; [congruence|].
+      apply H3. lia.
+    + intros [E|Hin]; [congruence|tauto].
+Qed.
+
+Lemma slice_in_file (hdr mem dump rest : list N) off n m :
+  length hdr = N.to_nat off -> length mem = N.to_nat n -> length dump = N.to_nat m ->
+  slice (hdr ++ mem ++ dump ++ rest) off n = mem /\
+  slice (hdr ++ mem ++ dump ++ rest) (off + n) m = dump.
+Proof.
+  intros Hh Hm Hd. split.
+  - apply slice_mid; assumption.
+  - rewrite app_assoc. replace (off + n) with (N.of_nat (length (hdr ++ mem))) by (rewrite app_length; lia).
+    apply (slice_mid (hdr ++ mem) dump rest); [lia|exact Hd].
+Qed.
+
+(** both bitmaps come from the file that holds disk #1, in whatever position that file
+    was given, and are the bitmaps that disk holds — the other files' bytes are never
+    looked at *)
+Theorem sadump_sources_file al files nums (hdr mem dump rest : list N) hdr_pos bs sub bb db max_pfn k :
+  disk1_index nums 0 = Some k ->
+  let g := sadump_geom hdr_pos bs sub bb db in
+  file_at files k = hdr ++ mem ++ dump ++ rest ->
+  length hdr = N.to_nat (sg_mem_off g) -> length mem = N.to_nat (bs * bb) -> length dump = N.to_nat (bs * db) ->
+  wf_bytes mem -> wf_bytes dump ->
+  fst (fst (sd_file_src g k)) = k /\ fst (fst (sd_mem_src false g k)) = k /\
+  (forall orc,
+     match fst (snd (sd_set_file_regions al files g k max_pfn orc)) with
+     | ROk rs => runs_from (bit_of true dump) 0 (bs * db * 8) 0 SADUMP_PAGE true rs
+     | RNoMem _ => In false orc
+     | ROob | RFuel => False
+     end) /\
+  (forall orc,
+     match fst (snd (sd_set_mem_regions false al files g k max_pfn orc)) with
+     | ROk rs => runs_from (bit_of true mem) 0 (bs * bb * 8) 0 SADUMP_PAGE true rs
+     | RNoMem _ => In false orc
+     | ROob | RFuel => False
+     end).
+Proof.
+  intros Hk g Hfile Hh Hm Hd Hwm Hwd.
+  destruct (sadump_geometry hdr_pos bs sub bb db) as (E1 & E2 & E3 & E4 & E5). cbn zeta in *. fold g in E1, E2, E3, E4, E5.
+  destruct (slice_in_file hdr mem dump rest (sg_mem_off g) (bs * bb) (bs * db) Hh Hm Hd) as [S1 S2].
+  split; [reflexivity|]. split; [reflexivity|]. split; intros orc.
+  - unfold sd_set_file_regions, sd_fetch, sd_file_src. cbn [fst snd]. rewrite Hfile, E3, E2, E4, S2.
+    destruct (regions_from_bitmap true true al dump 0 (bs * db * 8) 0 SADUMP_PAGE [] orc) as [res o'] eqn:Er.
+    pose proof (regions_are_runs true al dump 0 (bs * db * 8) 0 SADUMP_PAGE [] orc res o' Hwd ltac:(lia) Er) as R.
+    cbn [fst]. destruct res; try exact R. destruct R as [new [E Hr]]. cbn [app] in E. now subst.
+  - unfold sd_set_mem_regions, sd_fetch, sd_mem_src. cbn [fst snd]. rewrite Hfile, E2, S1.
+    destruct (regions_from_bitmap true true al mem 0 (bs * bb * 8) 0 SADUMP_PAGE [] orc) as [res o'] eqn:Er.
+    pose proof (regions_are_runs true al mem 0 (bs * bb * 8) 0 SADUMP_PAGE [] orc res o' Hwm ltac:(lia) Er) as R.
+    cbn [fst]. destruct res; try exact R. destruct R as [new [E Hr]]. cbn [app] in E. now subst.
+Qed.
+
+(** the variant that fetches the memory bitmap from file index 0 reads another disk
+    as soon as disk #1 is not given first *)
+Theorem sadump_mem_from_first_refuted :
+  exists files nums g k,
+    disk1_index nums 0 = Some k /\
+    sd_fetch files (sd_mem_src false g k) <> sd_fetch files (sd_mem_src true g k).
+Proof.
+  exists [[9; 9; 9; 9]; [0; 0; 255; 1]], [2; 1], (sadump_geom 0 1 1 1 1), 1.
+  split; [reflexivity|]. vm_compute. discriminate.
+Qed.
